@@ -345,6 +345,11 @@ def templates(job):
             relabel(run)
             out["evaluations"] += 1
             C["templates_run"] = C.get("templates_run", 0) + 1
+            if cm.reached_step is None and p in ("input", "vars") and k != "string_value":
+                # the workflow's own input / vars cannot be rendered: whatever the history, this is known from the first call on
+                run.viol("C11", "error_not_recorded", "the %s expression of the definition cannot be evaluated, but no error entry "
+                         "records it (status %s%s)" % (p, run.status(), ", conductor persisted and restored before its first call"
+                                                       if precrash else ""), subject="errors")
             if cm.reached_step is not None:
                 C["injection_reached"] = C.get("injection_reached", 0) + 1
                 out["sets"].setdefault("positions_reached", set()).add(p)
